@@ -26,6 +26,21 @@ def renderParse (m : Msg) : String :=
     | none => s!"{hex4 t}:none:{if m.hasAttribute t then 1 else 0}"
   s!"ok cls={m.cls} meth={m.method} tid={hex24 m.tid} q=1111 attrs={renderAttrs m.iter} look={"|".intercalate look}"
 
+/-- the fields of a policing response that C16 pins, read back with the Lean parser and decoders -/
+def respFields (bytes : Bytes) : String :=
+  match msgFromBytes bytes with
+  | .error e => s!"unparsable {e.render}"
+  | .ok m =>
+    let code := match m.attribute .errorCode with
+      | .ok (.errorCode c _) => toString c
+      | .error (.missing _) => "-"
+      | _ => "?"
+    let unk := match m.attribute .unknownAttributes with
+      | .ok (.unknownAttributes ts) => ".".intercalate (ts.map hex4)
+      | .error (.missing _) => "-"
+      | _ => "?"
+    s!"cls={m.cls} meth={m.method} tid={hex24 m.tid} code={code} unknown={unk}"
+
 def parseCreds (s : String) : Option Creds :=
   match s.splitOn ":" with
   | ["s", p] => (ofHex p).map .short
@@ -112,7 +127,22 @@ def handle (l : Line) : Verdict :=
           match bld.attrs with
           | [_, .raw a] => if a.value.take 4 = [0, 0, 4, 0] then 400 else 420
           | _ => 420
-        exact s!"msg police {clsTag} {code}{tr}" l.obs s!"some {bld.byteLen} {toHex bld.build}"
+        -- C16 pins the verdict and the response's class, method, transaction id, error code and (for 420)
+        -- the UNKNOWN-ATTRIBUTES list; the reason phrase and any other attribute are the implementation's
+        -- choice.  Compare those fields (read back with the Lean parser), not the bytes.
+        let model := s!"some {bld.byteLen} {toHex bld.build}"
+        if l.obs == model then .ok s!"msg police {clsTag} {code}{tr}"
+        else
+          match (l.obs.splitOn " ") with
+          | ["some", _, hexs] =>
+            match ofHex hexs with
+            | some implBytes =>
+              let fi := respFields implBytes
+              let fm := respFields bld.build
+              if fi == fm && !(fi.startsWith "unparsable") then .ok s!"msg police {clsTag} {code} other-bytes{tr}"
+              else .bad "policing response differs in a pinned field" s!"{model} fields={fm} impl-fields={fi}"
+            | none => .bad "hex" model
+          | _ => exact s!"msg police {clsTag} {code}{tr}" l.obs model
   | "display" =>
     match msgFromBytes b with
     | .error _ => exact s!"msg display noparse{tr}" l.obs "noparse"
